@@ -479,6 +479,11 @@ where
         for i in from..stored_to {
             if unlikely(hole_iter.peek() == Some(&&i)) {
                 hole_iter.next();
+                // A deleted slot can still carry an overlay value (rollback restores a
+                // truncated tail through `updated`): consume it to stay in step.
+                if update_iter.peek().is_some_and(|&(&k, _)| k == i) {
+                    update_iter.next();
+                }
                 byte_off += Self::SIZE_OF_T;
                 continue;
             }
@@ -530,6 +535,11 @@ where
         for i in from..stored_to {
             if unlikely(hole_iter.peek() == Some(&&i)) {
                 hole_iter.next();
+                // A deleted slot can still carry an overlay value (rollback restores a
+                // truncated tail through `updated`): consume it to stay in step.
+                if update_iter.peek().is_some_and(|&(&k, _)| k == i) {
+                    update_iter.next();
+                }
                 byte_off += Self::SIZE_OF_T;
                 continue;
             }
